@@ -4,7 +4,11 @@ package main
 
 import (
 	"bytes"
+	"encoding/hex"
 	"fmt"
+	"os"
+	"os/exec"
+	"path/filepath"
 	"sort"
 	"strconv"
 	"strings"
@@ -120,13 +124,14 @@ func c10GenProfileSized(r *Rng, ns, depth int) *profile.Profile {
 // finds sources by (a) trim_path, or (b) the heuristic "strip everything up to /<basename of a source_path
 // directory>/", or (c) joining source_path with the full name. Every tree below therefore yields DIFFERENT
 // trimmed file names and has different file contents:
-//   srcroot/<full name>              found through (c) with source_path=../srcroot, names untrimmed
-//   trees/a/src/<pkg>/<file>         basename "src"      → names become <pkg>/<file>
-//   trees/b/app/<file>               basename "app"      → only …/src/app/… names become <file>
-//   trees/c/lib/<file>               basename "lib"      → only …/src/lib/… names become <file>
-//   trees/d/proj/src/<pkg>/<file>    basename "proj"     → names become src/<pkg>/<file>
-//   trees/e/checkout/proj/src/…      basename "checkout" → names become proj/src/<pkg>/<file>
-//   trees/f/other/…                  basename occurs in no file name (nothing trimmed, nothing found)
+//
+//	srcroot/<full name>              found through (c) with source_path=../srcroot, names untrimmed
+//	trees/a/src/<pkg>/<file>         basename "src"      → names become <pkg>/<file>
+//	trees/b/app/<file>               basename "app"      → only …/src/app/… names become <file>
+//	trees/c/lib/<file>               basename "lib"      → only …/src/lib/… names become <file>
+//	trees/d/proj/src/<pkg>/<file>    basename "proj"     → names become src/<pkg>/<file>
+//	trees/e/checkout/proj/src/…      basename "checkout" → names become proj/src/<pkg>/<file>
+//	trees/f/other/…                  basename occurs in no file name (nothing trimmed, nothing found)
 func c10SourceTrees(p *profile.Profile) map[string]string {
 	out := map[string]string{"trees/f/other/readme.txt": "no sources here\n"}
 	text := func(tree, name string) string {
@@ -505,6 +510,112 @@ func c10FileReuseScript(r *Rng) []c10Line {
 		}
 	}
 	return ls
+}
+
+// ---- real-binary stream: a real ELF binary + the default ObjTool (binutils) ----
+
+// c10RealProfile: internal/report/testdata/sample.cpu of the tree under test with its mapping and source file
+// names pointed at that tree's sample.bin / sample/; "" and a reason when the stream cannot run here.
+func c10RealProfile() (string, string) {
+	for _, tool := range []string{"objdump", "nm"} {
+		if _, err := exec.LookPath(tool); err != nil {
+			return "", tool + " not installed"
+		}
+	}
+	_, e1 := exec.LookPath("addr2line")
+	_, e2 := exec.LookPath("llvm-symbolizer")
+	if e1 != nil && e2 != nil {
+		return "", "neither addr2line nor llvm-symbolizer installed"
+	}
+	repo := os.Getenv("VERIF_REPO")
+	if repo == "" {
+		repo = "/repo"
+	}
+	dir := filepath.Join(repo, "internal", "report")
+	f, err := os.Open(filepath.Join(dir, "testdata", "sample.cpu"))
+	if err != nil {
+		return "", err.Error()
+	}
+	defer f.Close()
+	p, err := profile.Parse(f)
+	if err != nil {
+		return "", err.Error()
+	}
+	fix := func(s string) string {
+		const marker = "/internal/report/"
+		if pos := strings.Index(s, marker); pos != -1 {
+			return filepath.Join(dir, s[pos+len(marker):])
+		}
+		return s
+	}
+	for _, m := range p.Mapping {
+		m.File = fix(m.File)
+	}
+	for _, fn := range p.Function {
+		fn.Filename = fix(fn.Filename)
+	}
+	if _, err := os.Stat(p.Mapping[0].File); err != nil {
+		return "", err.Error()
+	}
+	b, pn := c10WriteU(p)
+	if pn != "" {
+		return "", pn
+	}
+	return hex.EncodeToString(b), ""
+}
+
+var c10RealFuncs = []string{"busyLoop", "main", "mapiternext", "math.Abs", "evacuate|growWork", "."}
+
+// c10RealScript: commands that go through the object file (list, weblist, disasm), each issued twice or more
+// in one session, same and different functions, with other reports and options in between.
+func c10RealScript(r *Rng) []c10Line {
+	var ls []c10Line
+	cmd := func(t string) { ls = append(ls, c10Line{Text: t, Intent: "command"}) }
+	asg := func(t string) { ls = append(ls, c10Line{Text: t, Intent: "assign"}) }
+	f := r.Pick(c10RealFuncs[:4])
+	kinds := []string{"weblist", "weblist", "list", "disasm"}
+	n := 0
+	file := func() string { n++; return fmt.Sprintf(">o%d.out", n) }
+	for i, k := 0, 4+r.Intn(4); i < k; i++ {
+		c := r.Pick(kinds)
+		g := f
+		if r.Chance(30) {
+			g = r.Pick(c10RealFuncs)
+		}
+		switch {
+		case c == "weblist":
+			cmd("weblist " + g + " " + file())
+		case r.Bool():
+			cmd(c + " " + g + " " + file())
+		default:
+			cmd(c + " " + g)
+		}
+		if r.Chance(30) {
+			cmd(r.Pick([]string{"top 5", "tree 5", "peek " + g, "traces"}))
+		}
+		if r.Chance(20) {
+			asg(r.Pick([]string{"intel_syntax=true", "intel_syntax=false", "noinlines=true", "noinlines=false", "unit=ms", "focus=" + g, "focus="}))
+		}
+	}
+	cmd("weblist " + f + " " + file())
+	cmd("disasm " + f)
+	cmd("list " + f)
+	return ls
+}
+
+func c10RealWebRequests(r *Rng) (string, []string) {
+	f := r.Pick(c10RealFuncs[:4])
+	req := r.Pick([]string{"/source?f=", "/source?f=", "/disasm?f="}) + c10QueryEscape(f)
+	var others []string
+	for i, n := 0, 3+r.Intn(4); i < n; i++ {
+		g := f
+		if r.Chance(40) {
+			g = r.Pick(c10RealFuncs)
+		}
+		others = append(others, r.Pick([]string{"/source?f=", "/source?f=", "/disasm?f=", "/peek?f=", "/top?f="})+c10QueryEscape(g))
+	}
+	others = append(others, req) // the probed request itself has been served before, too
+	return req, others
 }
 
 // ---- web request generator ----
